@@ -108,9 +108,10 @@ struct ModelSpec
   double totalSill = 0;
 };
 
-static std::unique_ptr<Model> genModel(Rng& r, int ndim, int nvar, int drift, ModelSpec& ms, bool nuggetOk = true)
+static std::unique_ptr<Model> genModel(Rng& r, int ndim, int nvar, int drift, ModelSpec& ms, bool nuggetOk = true, bool noMatern = false)
 {
-  static const std::vector<ECov> types = {ECov::SPHERICAL, ECov::EXPONENTIAL, ECov::CUBIC, ECov::MATERN};
+  const std::vector<ECov> types = noMatern ? std::vector<ECov> {ECov::SPHERICAL, ECov::EXPONENTIAL, ECov::CUBIC}
+                                           : std::vector<ECov> {ECov::SPHERICAL, ECov::EXPONENTIAL, ECov::CUBIC, ECov::MATERN};
   auto sillMat = [&](double scale) {
     VectorDouble s(nvar * nvar, 0.);
     std::vector<std::vector<double>> a(nvar, std::vector<double>(nvar));
@@ -429,6 +430,7 @@ static void opKriging(Rng& r, Ctx& c)
 {
   GenOpt o;
   o.nmax = c.thorough() ? 90 : 36;
+  o.pUcoord = 0.14;
   Samples s = genSamples(r, o);
   defineDefaultSpace(ESpaceType::RN, s.ndim);
   int drift = r.irange(-1, 1);
@@ -450,7 +452,9 @@ static void opKriging(Rng& r, Ctx& c)
     }
   }
   ModelSpec ms;
-  auto model = genModel(r, s.ndim, s.nvar, drift, ms);
+  // (undefined coordinates: half of the cases without MATERN, which throws at the distance 1.234e30, so that the
+  //  "partially undefined location" stratum below is well populated)
+  auto model = genModel(r, s.ndim, s.nvar, drift, ms, true, s.by == BY_UCOORD && r.coin(0.5));
   bool linear = !fext && r.coin(hasUndefValueSamples(s) ? 0.3 : 0.07) && !avoid("linear", AVOID_LINEAR) && s.by != BY_SELNA && s.by != BY_UCOORD; // (one exotic feature at a time)
   if (linear) { drift = 0; model = genLinearModel(r, s.nvar, ms); }
   if (fext) { model->setDriftIRF(drift, 1); ms.desc += "+fext"; }
@@ -490,6 +494,12 @@ static void opKriging(Rng& r, Ctx& c)
     doutR = mkTargetsReduced(t);
   }
   Key K = mkKey("kriging", neighOnly ? "test_neigh:" + nd : nd, s, ns.kind == 2);
+  // Stratum where the library DOES handle an undefined coordinate: unique neighbourhood (no distance search), a
+  // structure that tolerates the distance 1.234e30 (not MATERN), ndim >= 2 so that the location is only PARTIALLY
+  // undefined: KrigingSystem::_flagDefine ("Check on the coordinates") switches the datum off.  It is clean on the
+  // unchanged tree and gets its own (non collapsed) key, outside the open undefined-coordinate finding.
+  bool partialLoc = s.by == BY_UCOORD && ns.kind == 0 && s.ndim >= 2 && ms.desc.find("MATERN") == std::string::npos && !neighOnly;
+  if (partialLoc) { K = Key {"C05:kriging:unique:partially-undefined-location", false}; c.probe("kriging:partially-undefined-location"); }
   if (linear && !K.collapsed && !neighOnly && hasUndefValueSamples(s)) K = extentKey("kriging", "linear-model");
   auto krige = [&](Db* din, Db* dout, ANeigh* ng) {
     if (neighOnly) return test_neigh(din, dout, model.get(), ng);
@@ -902,7 +912,7 @@ static void opCovMat(Rng& r, Ctx& c)
   int which = r.irange(0, 5);
   Targets t = genTargets(r, s, 3, 12);
   bool twoDb = r.coin() && (which == 0 || which == 2 || which == 4);
-  int ivar0 = r.coin(0.6) ? -1 : r.irange(0, s.nvar - 1), jvar0 = r.coin(0.6) ? -1 : r.irange(0, s.nvar - 1);
+  int ivar0 = r.coin(0.5) ? -1 : r.irange(0, s.nvar - 1), jvar0 = r.coin(0.5) ? -1 : r.irange(0, s.nvar - 1);
   // ACov::evalCovMatrixSparse fills its nvar1 x nvar2 sill matrix with the absolute variable ranks: any ivar0 >= 1
   // aborts (out-of-range setValue) whatever the selection - not a C05 matter, reported; keep to ranks -1 / 0 there
   if (which == 4) { if (ivar0 > 0) ivar0 = 0; if (jvar0 > 0) jvar0 = 0; }
@@ -987,6 +997,34 @@ static void opCovMat(Rng& r, Ctx& c)
     return;
   }
   cmpMatExact(c, "covmat:equal", K + ":differs", WN[which], *a, *b);
+  // Direct oracle on the SHAPE (the masked-vs-reduced relation is blind to an error made identically in both runs,
+  // e.g. the definedness pattern of the wrong variable): documented convention (ACov.cpp / DriftList.cpp) = one row
+  // per (requested variable, active sample where THAT variable is defined), variables in the requested order.
+  {
+    auto countDef = [&](int ivar, const VectorInt& nb) {
+      int n = 0;
+      if (nb.empty()) { for (int i : s.kept) n += !FFFF(s.z[ivar][i]); }
+      else for (int k : nb) n += !FFFF(s.z[ivar][s.kept[k]]);
+      return n;
+    };
+    auto rowsFor = [&](int iv0, const VectorInt& nb) {
+      int n = 0;
+      for (int v = 0; v < s.nvar; v++) if (iv0 < 0 || iv0 == v) n += countDef(v, nb);
+      return n;
+    };
+    int wantRows = rowsFor(ivar0, nbR), wantCols = -1;
+    bool sameDbCols = (which == 0 || which == 2 || which == 4) && !twoDb;
+    if (which == 1 || which == 3) wantCols = wantRows;
+    else if (sameDbCols) wantCols = rowsFor(jvar0, VectorInt());
+    else if (which != 5) wantCols = (jvar0 < 0 ? s.nvar : 1) * (int)t.active.size(); // target Db without Z-variable: every active target
+    if (which == 4) wantCols = -2; // (the sparse result is dimensioned by its last stored entry: not asserted)
+    if (wantRows == 0 || wantCols == 0) wantCols = -2; // (nothing requested is defined: an empty matrix is returned)
+    std::string KS = std::string("C05:") + WN[which] + ":variable-subset:wrong-shape";
+    std::string req = fmt("ivar0=%d jvar0=%d nvar=%d hetero=%d", ivar0, jvar0, s.nvar, (int)s.hetero);
+    if (wantCols != -2)
+      c.truth("covmat:shape", KS, b->getNRows() == wantRows && (wantCols < 0 || b->getNCols() == wantCols),
+              fmt("reduced-run matrix %dx%d, expected %dx%d (%s)", b->getNRows(), b->getNCols(), wantRows, wantCols, req.c_str()));
+  }
 }
 
 
@@ -1275,6 +1313,25 @@ static void opDbPredicates(Rng& r, Ctx& c)
       for (size_t k = 0; ok && k < want.size(); k++) ok = mr[v][k] == want[k];
     }
     c.truth("db:getMultipleRanksActive", K + ":getMultipleRanksActive", ok);
+    // explicit variable lists (any order, any subset): list k must describe variable ivars[k]
+    for (int trial = 0; trial < 2; trial++)
+    {
+      VectorInt ivars;
+      if (trial == 0) ivars.push_back(s.nvar - 1);
+      else for (int v = s.nvar - 1; v >= 0; v--) ivars.push_back(v);
+      VectorVectorInt ms = db->getMultipleRanksActive(ivars);
+      bool ok2 = ms.size() == ivars.size();
+      std::string w;
+      for (size_t q = 0; ok2 && q < ivars.size(); q++)
+      {
+        std::vector<int> want;
+        for (int i : s.kept) if (!FFFF(s.z[ivars[q]][i])) want.push_back(i);
+        ok2 = ms[q].size() == want.size();
+        for (size_t k = 0; ok2 && k < want.size(); k++) ok2 = ms[q][k] == want[k];
+        if (!ok2) w = fmt("list %zu (variable %d): %zu ranks, expected %zu", q, ivars[q], (size_t)ms[q].size(), want.size());
+      }
+      c.truth("db:getMultipleRanksActive(ivars)", K + ":getMultipleRanksActive-subset", ok2, w);
+    }
   }
   // columns read through the selection == columns of the reduced Db
   if (nk > 0)
